@@ -43,13 +43,14 @@ type world struct {
 	byID   map[string]*item
 	fun    map[string]functionary
 	root   *gen.Cert
+	inter  []*gen.Cert
 	t2link string
 	t2byC1 string
 }
 
 type Case struct {
 	T2ByC1    bool     `json:"t2_by_c1,omitempty"` // the second step's only link is signed by certificate holder C1 (not authorised there)
-	Mode      string   `json:"mode"` // keys | cert | mixed
+	Mode      string   `json:"mode"`               // keys | cert | mixed
 	Threshold int      `json:"threshold"`
 	DSSE      bool     `json:"dsse"`
 	Items     []string `json:"items"`
@@ -77,14 +78,22 @@ func buildWorld(base string, dsse bool) *world {
 	C3 := gen.NewCert(gen.Key("rsa2048b"), root, good, false, nb, time.Now().Add(-24*time.Hour))
 	C4 := gen.NewCert(gen.Key("p521"), froot, good, false, nb, na)
 	C5 := gen.NewCert(gen.Key("rsa3072"), root, gen.Attr{CN: "f", Orgs: []string{"bad"}}, false, nb, na)
+	// intermediates listed in the layout: one under the layout's root, one under the foreign root (an
+	// intermediate is no trust anchor: certificates below it still do not chain to a layout root)
+	mid := gen.NewCert(gen.Key("p256e"), root, gen.Attr{CN: "intermediate"}, true, nb, na)
+	fmid := gen.NewCert(gen.Key("p256f"), froot, gen.Attr{CN: "foreign intermediate"}, true, nb, na)
+	C6 := gen.NewCert(gen.Key("ed7"), fmid, good, false, nb, na)
+	C7 := gen.NewCert(gen.Key("ed8"), mid, good, false, nb, na)
+	w.inter = []*gen.Cert{mid, fmid}
 	w.root = root
 	w.fun = map[string]functionary{
 		"K1": {K1.ID, ""}, "K2": {K2.ID, ""}, "K3": {K3.ID, ""}, "KT": {KT.ID, ""}, "KX": {KX.ID, ""},
 		"C1": {C1.AsKey.KeyID, "good"}, "C2": {C2.AsKey.KeyID, "good"}, "C3": {C3.AsKey.KeyID, "expired"},
 		"C4": {C4.AsKey.KeyID, "foreign"}, "C5": {C5.AsKey.KeyID, "badorg"},
+		"C6": {C6.AsKey.KeyID, "foreign"}, "C7": {C7.AsKey.KeyID, "good"},
 	}
 	signer := map[string]intoto.Key{"K1": K1.Full, "K2": K2.Full, "K3": K3.Full, "KT": KT.Full, "KX": KX.Full,
-		"C1": C1.Signer, "C2": C2.Signer, "C3": C3.Signer, "C4": C4.Signer, "C5": C5.Signer}
+		"C1": C1.Signer, "C2": C2.Signer, "C3": C3.Signer, "C4": C4.Signer, "C5": C5.Signer, "C6": C6.Signer, "C7": C7.Signer}
 
 	mk := func(id, file string, signers ...string) string {
 		d := gen.FreshDir(w.dir, id)
@@ -153,6 +162,12 @@ func buildWorld(base string, dsse bool) *world {
 	add(item{ID: "d1", File: shortName("s", K1.ID), Signers: []sigDesc{{"K1", true}, {"KX", false}}})
 	mk("d1x", shortName("s", KX.ID), "K1", "KX")
 	add(item{ID: "d1x", File: shortName("s", KX.ID), Signers: []sigDesc{{"K1", false}, {"KX", true}}})
+	// an honest link that somebody else (not authorised) signed first: the functionary's own signature,
+	// after which the file is named, comes second in the list
+	mk("d2x", shortName("s", K2.ID), "KX", "K2")
+	add(item{ID: "d2x", File: shortName("s", K2.ID), Signers: []sigDesc{{"KX", false}, {"K2", true}}})
+	mk("dc2x", shortName("s", C2.AsKey.KeyID), "KX", "C2")
+	add(item{ID: "dc2x", File: shortName("s", C2.AsKey.KeyID), Signers: []sigDesc{{"KX", false}, {"C2", true}}})
 	// forged claimed key id in front of C1's real signature
 	for i, fake := range []string{"f1", "f2"} {
 		fid := strings.Repeat([]string{"0a", "0b"}[i], 32)
@@ -176,6 +191,8 @@ func buildWorld(base string, dsse bool) *world {
 	honest("c3", "C3")
 	honest("c4", "C4")
 	honest("c5", "C5")
+	honest("c6", "C6")
+	honest("c7", "C7")
 	// truncated JSON
 	d := gen.FreshDir(w.dir, "trunc")
 	raw, _ := os.ReadFile(filepath.Join(w.dir, "h1", shortName("s", K1.ID)))
@@ -242,6 +259,10 @@ func (w *world) layout(mode string, threshold int) (intoto.Metadata, map[string]
 	}
 	l := gen.Layout(gen.FarFuture, []intoto.Step{s, t2}, nil, map[string]intoto.Key{K1.ID: K1.Pub, K2.ID: K2.Pub, K3.ID: K3.Pub, KT.ID: KT.Pub})
 	l.RootCas = map[string]intoto.Key{w.root.AsKey.KeyID: w.root.AsKey}
+	l.IntermediateCas = map[string]intoto.Key{}
+	for _, ic := range w.inter {
+		l.IntermediateCas[ic.AsKey.KeyID] = ic.AsKey
+	}
 	owner := gen.Key("ed5")
 	return gen.MustWrap(l, w.dsse, owner.Full), map[string]intoto.Key{owner.ID: owner.Pub}
 }
@@ -601,7 +622,7 @@ func replay(c *mcx.Ctx, raw json.RawMessage) (string, string) {
 func init() {
 	mcx.Register(&mcx.Driver{
 		ID: "C02", Run: run, Replay: replay,
-		Rule: "every population (subset of size <= 3 quick / <= 4 thorough) of a 20-element catalogue of link files for step s (honest by authorised / unlisted / foreign-step keys, tampered, unsigned, misnamed, doubly signed, forged claimed key id, certificate-signed with good/expired/foreign-root/constraint-violating chains, truncated, a layout, a directory) " +
+		Rule: "every population (subset of size <= 3 quick / <= 4 thorough) of a 24-element catalogue of link files for step s (honest by authorised / unlisted / foreign-step keys, tampered, unsigned, misnamed, doubly signed (the functionary's signature first or second), forged claimed key id, certificate-signed with good/expired/foreign-root/constraint-violating chains, directly below a root or below an intermediate listed in the layout (one under the layout root, one under a foreign root), truncated, a layout, a directory) " +
 			"x threshold 1..3 x authorisation {keys, certificate constraint, mixed} x {legacy, DSSE}; for each, InTotoVerify is executed under EVERY iteration order of the per-link counting loop (full permutations; thorough adds one order deviation at every other map range for populations <= 2). " +
 			"A case = one (population, threshold, mode, wrapper), distinct by construction; non-trivial = non-empty population with at least one authorised valid signer. states = populations materialised, transitions = choice points passed.",
 		Assumptions: []string{
